@@ -17,6 +17,34 @@ CHECKS = {
         "(exact bytes for satisfiable ranges); h5py as a function of the bytes read; positions non-negative.",
    technique="Coq proof by induction over operation histories (cache invariant) + model/implementation correspondence by vm_compute",
    design="5/C19"),
+ "C03": dict(
+   text="Machine-checked proof (Coq 8.16.1) about a Gallina model of Filter.update/reset written line by line "
+        "(key diff incl. removed keys, feat2filter with force, ValueError pre-check, per-feature box cache with "
+        "NaN branch and bound swap, polygon cache pruning and hash invalidation, invalid mask, enable switch, "
+        "limit events through a choice oracle, manual edits, reset): for every dataset and every history of "
+        "operations, a non-raising application leaves .all/.box/.polygon/.invalid equal to a stateless "
+        "specification of the current settings (cache invariant by induction over the history); exact count and "
+        "subset theorems for the event limit; selection depends on the settings only. Tied to the code on every "
+        "run by vm_compute correspondence on random histories and a stateless Python reference oracle.",
+   note="Trusted: Coq kernel+vm_compute; hand-written model tied by differential testing; seeded numpy choice "
+        "(oracle: distinct, in range, right count, deterministic - checked on every run); point-in-polygon taken "
+        "as per-event data (C15); polygon hash injective on the case; warnings and uint32 wrap of the limit not modelled.",
+   technique="Coq invariant proof over operation histories + vm_compute correspondence + stateless reference oracle",
+   design="5/C03"),
+ "C07": dict(
+   text="Machine-checked proof (Coq 8.16.1) about a Gallina model of the mapped-basin machinery (numpy 1-d "
+        "indexing, BasinProxyFeature's three access routes with its cache, store_basin's basinmap0..9 allocation/"
+        "reuse, basin sorting and the lookup passes of __getitem__, map_indices_child2root, the basins branch of "
+        "Export.hdf5): all access routes equal origin[basinmap][index]; the map written by an export composes the "
+        "filters for chains of any depth (induction); allocation is sound and complete; innate features win; the "
+        "full nested lookup returns the origin's data at the file's origin events. Tied to the code by vm_compute "
+        "correspondence on random pipelines of up to 6 files (mapped/unmapped/internal basins, export chains from "
+        "files and hierarchy children, moved directories, all access patterns and feature kinds).",
+   note="Trusted: Coq kernel+vm_compute; hand-written model tied by differential testing; HDF5/h5py storage, path "
+        "resolution and identifier verification exercised but not modelled; hierarchy child access and the order of "
+        "basins with equal priority key are oracles; remote basins not modelled (C14/C19).",
+   technique="Coq proofs (list/index-map algebra, induction over export chains and store_basin histories) + vm_compute correspondence",
+   design="5/C07"),
 }
 
 def main():
